@@ -1,5 +1,501 @@
-/- C07 — property theorems only. -/
+/- C07 — property theorems only.
+
+Coordinates range over an arbitrary linear ordered field `K` (ℝ included); shapely's segment
+length enters through `Env.len` with the contract `EdgeOk` (`len² = |p2 - p1|²`, `len ≥ 0`,
+and enough loop fuel), required only for the edges that are actually densified.
+"Distance ≤ r" is stated on squares (`dist2 a b ≤ r*r`, equivalent for `r > 0`). -/
 import OdcGeo.Model.C07
+import OdcGeo.Lemmas.C07
+import OdcGeo.Lemmas.C01
+import Mathlib.Tactic.Ring
+import Mathlib.Tactic.Linarith
+import Mathlib.Tactic.FieldSimp
+import Mathlib.Tactic.Positivity
+import Mathlib.Tactic.NormNum
+import Mathlib.Algebra.Order.Field.Basic
+import Mathlib.Algebra.Order.Field.Rat
+
 namespace OdcGeo.C07
+set_option linter.unusedSectionVars false
+
+variable {K : Type} [Field K] [LinearOrder K] [IsStrictOrderedRing K]
+
+/-! ### densify -/
+
+/-- what a successful `densify` call is -/
+theorem densify_ok (short : K → Pt K → Pt K → Bool) (E : Env K) (r : K) (coords out : List (Pt K))
+    (h : densifyWith short E r coords = .ok out) :
+    0 < r ∧ ∃ p rest, coords = p :: rest ∧ out = p :: densifyFrom short E r p rest := by
+  cases coords with
+  | nil =>
+    unfold densifyWith at h
+    by_cases hr : r ≤ 0 <;> simp [hr] at h
+  | cons p rest =>
+    unfold densifyWith at h
+    by_cases hr : r ≤ 0
+    · simp [hr] at h
+    · simp only [hr, if_false, Except.ok.injEq] at h
+      exact ⟨not_le.mp hr, p, rest, rfl, h.symm⟩
+
+/-- a non-positive resolution is rejected (it used to loop forever) -/
+theorem densify_nonpos_errors (E : Env K) (r : K) (hr : r ≤ 0) (coords : List (Pt K)) :
+    densify E r coords = .error .valueError := by
+  cases coords <;> simp [densify, densifyWith, hr]
+
+/-- **No edge of the output is longer than the resolution** (repaired code; every direction and
+position of the edges, any number of vertices). -/
+theorem densify_gap_le (E : Env K) (r : K) (coords out : List (Pt K))
+    (hE : CoordsOk E r coords) (h : densify E r coords = .ok out) : GapsLe r out := by
+  obtain ⟨hr, p, rest, rfl, rfl⟩ := densify_ok shortEnough E r coords out h
+  exact densifyFrom_gaps E r hr rest p hE
+
+/-- The code as found (F3) violates it: `densify([(0,0),(0,100)], 10)` returns its input. -/
+theorem densify_gap_le_F3_cex (E : Env Rat) :
+    densifyF3 E 10 [⟨0, 0⟩, ⟨0, 100⟩] = .ok [⟨0, 0⟩, ⟨0, 100⟩] ∧
+    ¬ GapsLe (10 : Rat) [⟨0, 0⟩, ⟨0, 100⟩] := by
+  constructor
+  · simp [densifyF3, densifyFrom, edge, shortEnoughF3]
+  · simp only [GapsLe, dist2, and_true]; norm_num
+
+/-- **All original vertices are retained, in order** (a sublist), for any length test and any
+shapely: nothing but insertion ever happens. -/
+theorem densify_retains (short : K → Pt K → Pt K → Bool) (E : Env K) (r : K) (coords out : List (Pt K))
+    (h : densifyWith short E r coords = .ok out) : List.Sublist coords out := by
+  obtain ⟨_, p, rest, rfl, rfl⟩ := densify_ok short E r coords out h
+  exact (densifyFrom_sublist short E r rest p).cons_cons p
+
+/-- first and last vertex are kept as first and last -/
+theorem densify_first_last (short : K → Pt K → Pt K → Bool) (E : Env K) (r : K)
+    (coords out : List (Pt K)) (h : densifyWith short E r coords = .ok out) :
+    out.head? = coords.head? ∧ out.getLast? = coords.getLast? := by
+  obtain ⟨_, p, rest, rfl, rfl⟩ := densify_ok short E r coords out h
+  exact ⟨rfl, densifyFrom_getLast short E r rest p⟩
+
+/-- **Added vertices lie on the original edge**: everything the loop inserts for the edge
+`p1 → p2` is `p1 + τ (p2 - p1)` with `0 < τ < 1`. -/
+theorem densify_on_edge (E : Env K) (r : K) (hr : 0 < r) (p1 p2 q : Pt K) (fuel : Nat)
+    (hq : q ∈ loopPts p1 p2 (E.len p1 p2) r fuel r) :
+    ∃ τ : K, 0 < τ ∧ τ < 1 ∧ q.x = p1.x + τ * (p2.x - p1.x) ∧ q.y = p1.y + τ * (p2.y - p1.y) := by
+  obtain ⟨d, h1, h2, rfl⟩ := loopPts_mem p1 p2 (E.len p1 p2) r hr fuel r q hq
+  have hd : 0 < d := lt_of_lt_of_le hr h1
+  have hLpos : 0 < E.len p1 p2 := lt_trans hd h2
+  refine ⟨d / E.len p1 p2, div_pos hd hLpos, (div_lt_one hLpos).mpr h2, rfl, rfl⟩
+
+/-- everything `densify` puts between `p1` and `p2` comes from that loop -/
+theorem edge_inserted (E : Env K) (r : K) (p1 p2 q : Pt K)
+    (hq : q ∈ (edge shortEnough E r p1 p2).dropLast) :
+    q ∈ loopPts p1 p2 (E.len p1 p2) r (E.fuel r p1 p2) r := by
+  unfold edge at hq
+  by_cases hs : shortEnough r p1 p2 = true
+  · simp [hs] at hq
+  · simpa [hs] using hq
+
+/-- **Length is preserved**: an added vertex at arc length `d` splits its edge into parts of
+lengths `d` and `L - d` (their squares are the squared distances; both are positive), which
+add up to the edge length `L`. -/
+theorem densify_len_preserved (E : Env K) (r : K) (hr : 0 < r) (p1 p2 q : Pt K) (fuel : Nat)
+    (hE : EdgeOk E r p1 p2) (hq : q ∈ loopPts p1 p2 (E.len p1 p2) r fuel r) :
+    ∃ d : K, 0 < d ∧ 0 < E.len p1 p2 - d ∧ dist2 p1 q = d * d ∧
+      dist2 q p2 = (E.len p1 p2 - d) * (E.len p1 p2 - d) ∧ d + (E.len p1 p2 - d) = E.len p1 p2 := by
+  obtain ⟨d, h1, h2, rfl⟩ := loopPts_mem p1 p2 (E.len p1 p2) r hr fuel r q hq
+  have hd : 0 < d := lt_of_lt_of_le hr h1
+  have hL0 : E.len p1 p2 ≠ 0 := ne_of_gt (lt_trans hd h2)
+  exact ⟨d, hd, by linarith, dist2_start_interp p1 p2 _ d hL0 hE.len_sq,
+    dist2_interp_end p1 p2 _ d hL0 hE.len_sq, by ring⟩
+
+/-- consecutive added vertices are exactly `r` apart (so the gaps of an edge are
+`r, r, …, r, L - n·r`, summing to `L`) -/
+theorem densify_inner_gap (p1 p2 : Pt K) (L r d : K) (hL : L ≠ 0) (hLL : L * L = dist2 p1 p2) :
+    dist2 (interp p1 p2 L d) (interp p1 p2 L (d + r)) = r * r := by
+  rw [dist2_interp_interp p1 p2 L d (d + r) hL hLL]; ring
+
+/-- **Area is preserved**: inserting a vertex on the edge leaves the shoelace sum unchanged … -/
+theorem shoelace_insert_collinear (a b : Pt K) (τ : K) :
+    cross a ⟨a.x + τ * (b.x - a.x), a.y + τ * (b.y - a.y)⟩
+      + cross ⟨a.x + τ * (b.x - a.x), a.y + τ * (b.y - a.y)⟩ b = cross a b := by
+  simp only [cross]; ring
+
+/-- … hence `densify` keeps the shoelace sum (twice the signed area of a ring) exactly,
+for any length test and any shapely. -/
+theorem densify_area_preserved (short : K → Pt K → Pt K → Bool) (E : Env K) (r : K)
+    (coords out : List (Pt K)) (h : densifyWith short E r coords = .ok out) :
+    shoelace out = shoelace coords := by
+  obtain ⟨_, p, rest, rfl, rfl⟩ := densify_ok short E r coords out h
+  exact shoelace_densifyFrom short E r rest p
+
+/-! ### segmented: recursion over geometry kinds -/
+
+theorem densifyRings_spec (E : Env K) (r : K) :
+    ∀ (cs cs' : List (List (Pt K))), densifyRings E r cs = .ok cs' →
+      List.Forall₂ (fun c c' => densify E r c = .ok c') cs cs' := by
+  intro cs
+  induction cs with
+  | nil => intro cs' h; simp only [densifyRings, Except.ok.injEq] at h; subst h; exact .nil
+  | cons c cs ih =>
+    intro cs' h
+    unfold densifyRings at h
+    cases hd : densify E r c with
+    | error e => simp [hd] at h
+    | ok c' =>
+      cases hr : densifyRings E r cs with
+      | error e => simp [hd, hr] at h
+      | ok cs'' =>
+        simp only [hd, hr, Except.ok.injEq] at h
+        subst h
+        exact .cons hd (ih cs'' hr)
+
+mutual
+/-- **Geometry type and ring / part structure are unchanged** by `segmented` … -/
+theorem segmented_preserves_kind_and_structure (E : Env K) (r : K) :
+    ∀ (g g' : Geom K), segmentize E r g = .ok g' → skel g' = skel g
+  | .point p, g', h => by simp only [segmentize, Except.ok.injEq] at h; subst h; rfl
+  | .multiPoint ps, g', h => by simp only [segmentize, Except.ok.injEq] at h; subst h; rfl
+  | .lineString cs, g', h => by
+    simp only [segmentize] at h
+    cases hd : densify E r cs with
+    | error e => simp [hd] at h
+    | ok cs' => simp only [hd, Except.ok.injEq] at h; subst h; rfl
+  | .linearRing cs, g', h => by
+    simp only [segmentize] at h
+    cases hd : densify E r cs with
+    | error e => simp [hd] at h
+    | ok cs' => simp only [hd, Except.ok.injEq] at h; subst h; rfl
+  | .polygon ext holes, g', h => by
+    simp only [segmentize] at h
+    cases hd : densify E r ext with
+    | error e => simp [hd] at h
+    | ok ext' =>
+      cases hh : densifyRings E r holes with
+      | error e => simp [hd, hh] at h
+      | ok holes' =>
+        simp only [hd, hh, Except.ok.injEq] at h; subst h
+        simp only [skel]
+        rw [(densifyRings_spec E r holes holes' hh).length_eq]
+  | .multiLineString gs, g', h => by
+    simp only [segmentize] at h
+    cases hl : segmentizeList E r gs with
+    | error e => simp [hl] at h
+    | ok gs' =>
+      simp only [hl, Except.ok.injEq] at h; subst h
+      simp only [skel]; rw [segmentedList_preserves E r gs gs' hl]
+  | .multiPolygon gs, g', h => by
+    simp only [segmentize] at h
+    cases hl : segmentizeList E r gs with
+    | error e => simp [hl] at h
+    | ok gs' =>
+      simp only [hl, Except.ok.injEq] at h; subst h
+      simp only [skel]; rw [segmentedList_preserves E r gs gs' hl]
+  | .collection gs, g', h => by
+    simp only [segmentize] at h
+    cases hl : segmentizeList E r gs with
+    | error e => simp [hl] at h
+    | ok gs' =>
+      simp only [hl, Except.ok.injEq] at h; subst h
+      simp only [skel]; rw [segmentedList_preserves E r gs gs' hl]
+/-- … part by part, in order -/
+theorem segmentedList_preserves (E : Env K) (r : K) :
+    ∀ (gs gs' : List (Geom K)), segmentizeList E r gs = .ok gs' → skelList gs' = skelList gs
+  | [], gs', h => by simp only [segmentizeList, Except.ok.injEq] at h; subst h; rfl
+  | g :: gs, gs', h => by
+    simp only [segmentizeList] at h
+    cases hg : segmentize E r g with
+    | error e => simp [hg] at h
+    | ok g1 =>
+      cases hl : segmentizeList E r gs with
+      | error e => simp [hg, hl] at h
+      | ok gs1 =>
+        simp only [hg, hl, Except.ok.injEq] at h; subst h
+        simp only [skelList]
+        rw [segmented_preserves_kind_and_structure E r g g1 hg, segmentedList_preserves E r gs gs1 hl]
+end
+
+/-- ring by ring, `segmented` is `densify` (points are left alone) -/
+def RingRel (E : Env K) (r : K) (c c' : List (Pt K)) : Prop :=
+  (c' = c ∧ ∃ p, c = [p]) ∨ densify E r c = .ok c'
+
+theorem forall₂_refl_ringRel (E : Env K) (r : K) (ps : List (Pt K)) :
+    List.Forall₂ (RingRel E r) (ps.map (fun p => [p])) (ps.map (fun p => [p])) := by
+  induction ps with
+  | nil => exact .nil
+  | cons p ps ih => exact .cons (Or.inl ⟨rfl, p, rfl⟩) ih
+
+mutual
+/-- every coordinate sequence of `g.segmented(r)` is the corresponding sequence of `g`, either
+untouched (points) or passed through `densify`; same number of sequences, same order -/
+theorem segmented_ringwise (E : Env K) (r : K) :
+    ∀ (g g' : Geom K), segmentize E r g = .ok g' → List.Forall₂ (RingRel E r) (rings g) (rings g')
+  | .point p, g', h => by
+    simp only [segmentize, Except.ok.injEq] at h; subst h; exact forall₂_refl_ringRel E r [p]
+  | .multiPoint ps, g', h => by
+    simp only [segmentize, Except.ok.injEq] at h; subst h; exact forall₂_refl_ringRel E r ps
+  | .lineString cs, g', h => by
+    simp only [segmentize] at h
+    cases hd : densify E r cs with
+    | error e => simp [hd] at h
+    | ok cs' => simp only [hd, Except.ok.injEq] at h; subst h; exact .cons (Or.inr hd) .nil
+  | .linearRing cs, g', h => by
+    simp only [segmentize] at h
+    cases hd : densify E r cs with
+    | error e => simp [hd] at h
+    | ok cs' => simp only [hd, Except.ok.injEq] at h; subst h; exact .cons (Or.inr hd) .nil
+  | .polygon ext holes, g', h => by
+    simp only [segmentize] at h
+    cases hd : densify E r ext with
+    | error e => simp [hd] at h
+    | ok ext' =>
+      cases hh : densifyRings E r holes with
+      | error e => simp [hd, hh] at h
+      | ok holes' =>
+        simp only [hd, hh, Except.ok.injEq] at h; subst h
+        simp only [rings]
+        exact .cons (Or.inr hd) ((densifyRings_spec E r holes holes' hh).imp (fun _ _ h => Or.inr h))
+  | .multiLineString gs, g', h => by
+    simp only [segmentize] at h
+    cases hl : segmentizeList E r gs with
+    | error e => simp [hl] at h
+    | ok gs' =>
+      simp only [hl, Except.ok.injEq] at h; subst h
+      exact segmentedList_ringwise E r gs gs' hl
+  | .multiPolygon gs, g', h => by
+    simp only [segmentize] at h
+    cases hl : segmentizeList E r gs with
+    | error e => simp [hl] at h
+    | ok gs' =>
+      simp only [hl, Except.ok.injEq] at h; subst h
+      exact segmentedList_ringwise E r gs gs' hl
+  | .collection gs, g', h => by
+    simp only [segmentize] at h
+    cases hl : segmentizeList E r gs with
+    | error e => simp [hl] at h
+    | ok gs' =>
+      simp only [hl, Except.ok.injEq] at h; subst h
+      exact segmentedList_ringwise E r gs gs' hl
+theorem segmentedList_ringwise (E : Env K) (r : K) :
+    ∀ (gs gs' : List (Geom K)), segmentizeList E r gs = .ok gs' →
+      List.Forall₂ (RingRel E r) (ringsList gs) (ringsList gs')
+  | [], gs', h => by simp only [segmentizeList, Except.ok.injEq] at h; subst h; exact .nil
+  | g :: gs, gs', h => by
+    simp only [segmentizeList] at h
+    cases hg : segmentize E r g with
+    | error e => simp [hg] at h
+    | ok g1 =>
+      cases hl : segmentizeList E r gs with
+      | error e => simp [hg, hl] at h
+      | ok gs1 =>
+        simp only [hg, hl, Except.ok.injEq] at h; subst h
+        simp only [ringsList]
+        exact List.rel_append (segmented_ringwise E r g g1 hg) (segmentedList_ringwise E r gs gs1 hl)
+end
+
+theorem forall₂_mem_right {α β : Type} {R : α → β → Prop} {l : List α} {l' : List β}
+    (h : List.Forall₂ R l l') {b : β} (hb : b ∈ l') : ∃ a ∈ l, R a b := by
+  induction h with
+  | nil => simp at hb
+  | cons hab _ ih =>
+    rcases List.mem_cons.mp hb with rfl | hm
+    · exact ⟨_, List.mem_cons_self .., hab⟩
+    · obtain ⟨a, ha, hr⟩ := ih hm
+      exact ⟨a, List.mem_cons_of_mem _ ha, hr⟩
+
+/-- **No edge of a segmented geometry is longer than the resolution**, whatever its kind -/
+theorem segmented_gap_le (E : Env K) (r : K) (g g' : Geom K) (h : segmentize E r g = .ok g')
+    (hE : ∀ c ∈ rings g, CoordsOk E r c) : ∀ c' ∈ rings g', GapsLe r c' := by
+  intro c' hc'
+  have hrel := segmented_ringwise E r g g' h
+  obtain ⟨c, hc, hr⟩ := forall₂_mem_right hrel hc'
+  rcases hr with ⟨rfl, p, rfl⟩ | hd
+  · simp [GapsLe]
+  · exact densify_gap_le E r c c' (hE c hc) hd
+
+/-- all original vertices of every ring / part are retained in order by `segmented` -/
+theorem segmented_retains (E : Env K) (r : K) (g g' : Geom K) (h : segmentize E r g = .ok g') :
+    List.Forall₂ (fun c c' => List.Sublist c c' ∧ c'.head? = c.head? ∧ c'.getLast? = c.getLast?)
+      (rings g) (rings g') := by
+  refine (segmented_ringwise E r g g' h).imp ?_
+  intro c c' hr
+  rcases hr with ⟨rfl, _⟩ | hd
+  · exact ⟨List.Sublist.refl _, rfl, rfl⟩
+  · exact ⟨densify_retains shortEnough E r c c' hd, densify_first_last shortEnough E r c c' hd⟩
+
+/-- ring areas (shoelace sums) are unchanged by `segmented` -/
+theorem segmented_area_preserved (E : Env K) (r : K) (g g' : Geom K) (h : segmentize E r g = .ok g') :
+    List.Forall₂ (fun c c' => shoelace c' = shoelace c) (rings g) (rings g') := by
+  refine (segmented_ringwise E r g g' h).imp ?_
+  intro c c' hr
+  rcases hr with ⟨rfl, _⟩ | hd
+  · rfl
+  · exact densify_area_preserved shortEnough E r c c' hd
+
+/-! ### to_crs -/
+
+-- `ops.transform` maps vertex by vertex, in order …
+mutual
+theorem vertices_mapPts (f : Pt K → Pt K) : ∀ g : Geom K, vertices (mapPts f g) = (vertices g).map f
+  | .point p => by simp [mapPts, vertices]
+  | .multiPoint ps => by simp [mapPts, vertices]
+  | .lineString cs => by simp [mapPts, vertices]
+  | .linearRing cs => by simp [mapPts, vertices]
+  | .polygon ext holes => by simp [mapPts, vertices, List.map_flatten]
+  | .multiLineString gs => by simp only [mapPts, vertices]; exact verticesList_mapPts f gs
+  | .multiPolygon gs => by simp only [mapPts, vertices]; exact verticesList_mapPts f gs
+  | .collection gs => by simp only [mapPts, vertices]; exact verticesList_mapPts f gs
+theorem verticesList_mapPts (f : Pt K → Pt K) :
+    ∀ gs : List (Geom K), verticesList (mapPtsList f gs) = (verticesList gs).map f
+  | [] => rfl
+  | g :: gs => by
+    simp only [mapPtsList, verticesList, List.map_append]
+    rw [vertices_mapPts f g, verticesList_mapPts f gs]
+end
+
+-- … and keeps geometry type and ring / part structure
+mutual
+theorem skel_mapPts (f : Pt K → Pt K) : ∀ g : Geom K, skel (mapPts f g) = skel g
+  | .point p => rfl
+  | .multiPoint ps => by simp [mapPts, skel]
+  | .lineString cs => rfl
+  | .linearRing cs => rfl
+  | .polygon ext holes => by simp [mapPts, skel]
+  | .multiLineString gs => by simp only [mapPts, skel]; rw [skelList_mapPts f gs]
+  | .multiPolygon gs => by simp only [mapPts, skel]; rw [skelList_mapPts f gs]
+  | .collection gs => by simp only [mapPts, skel]; rw [skelList_mapPts f gs]
+theorem skelList_mapPts (f : Pt K → Pt K) : ∀ gs : List (Geom K), skelList (mapPtsList f gs) = skelList gs
+  | [] => rfl
+  | g :: gs => by simp only [mapPtsList, skelList]; rw [skel_mapPts f g, skelList_mapPts f gs]
+end
+
+/-- already in the target CRS (in whatever spelling `CRS.__eq__` accepts): returned unchanged -/
+theorem to_crs_same_is_identity (E : Env K) (proj : C01.CrsRec → C01.CrsRec → Pt K → Pt K)
+    (autoRes : Geom K → K) (g : Tagged K) (t : C01.CrsRec) (res : Resolution K)
+    (h : C01.tagEq g.crs (some t) = true) : toCrs E proj autoRes g (some t) res = .ok g := by
+  simp [toCrs, h]
+
+/-- a geometry without CRS is refused, whatever the target and resolution -/
+theorem to_crs_none_errors (E : Env K) (proj : C01.CrsRec → C01.CrsRec → Pt K → Pt K)
+    (autoRes : Geom K → K) (geom : Geom K) (target : C01.Tag) (res : Resolution K) :
+    toCrs E proj autoRes ⟨none, geom⟩ target res = .error .valueError := by
+  cases target <;> simp [toCrs, C01.tagEq]
+
+/-- **Point-wise**: a successful conversion into a different CRS is `proj` applied to every
+vertex of the (optionally densified) geometry — same type, same ring/part structure, same
+vertex order — tagged with the target CRS; for an arbitrary `proj`. -/
+theorem to_crs_pointwise (E : Env K) (proj : C01.CrsRec → C01.CrsRec → Pt K → Pt K)
+    (autoRes : Geom K → K) (g g' : Tagged K) (t : C01.CrsRec) (res : Resolution K)
+    (hne : C01.tagEq g.crs (some t) = false) (h : toCrs E proj autoRes g (some t) res = .ok g') :
+    ∃ (s : C01.CrsRec) (d : Geom K), g.crs = some s ∧
+      (d = g.geom ∨ ∃ r, 0 < r ∧ segmentize E r g.geom = .ok d) ∧
+      g'.crs = some t ∧ g'.geom = mapPts (proj s t) d ∧
+      vertices g'.geom = (vertices d).map (proj s t) ∧ skel g'.geom = skel g.geom := by
+  unfold toCrs at h
+  simp only [hne, Bool.false_eq_true, if_false] at h
+  cases hc : g.crs with
+  | none => simp [hc] at h
+  | some s =>
+    simp only [hc] at h
+    -- the densification step
+    have key : ∀ (dres : Res (Geom K)),
+        (match dres with
+          | .error e => (.error e : Res (Tagged K))
+          | .ok geom => .ok ⟨some t, mapPts (proj s t) geom⟩) = .ok g' →
+        ∃ d, dres = .ok d ∧ g' = ⟨some t, mapPts (proj s t) d⟩ := by
+      intro dres hd
+      cases dres with
+      | error e => simp at hd
+      | ok d => simp only [Except.ok.injEq] at hd; exact ⟨d, rfl, hd.symm⟩
+    obtain ⟨d, hd, rfl⟩ := key _ h
+    have hdens : d = g.geom ∨ ∃ r, 0 < r ∧ segmentize E r g.geom = .ok d := by
+      cases res with
+      | none => simp only [Except.ok.injEq] at hd; exact Or.inl hd.symm
+      | nonfinite => simp only [Except.ok.injEq] at hd; exact Or.inl hd.symm
+      | auto =>
+        simp only at hd
+        by_cases hr : 0 < autoRes g.geom
+        · simp only [hr, if_true] at hd; exact Or.inr ⟨_, hr, hd⟩
+        · simp only [hr, if_false, Except.ok.injEq] at hd; exact Or.inl hd.symm
+      | val r =>
+        simp only at hd
+        by_cases hr : 0 < r
+        · simp only [hr, if_true] at hd; exact Or.inr ⟨_, hr, hd⟩
+        · simp only [hr, if_false, Except.ok.injEq] at hd; exact Or.inl hd.symm
+    refine ⟨s, d, rfl, hdens, rfl, rfl, vertices_mapPts _ d, ?_⟩
+    rw [skel_mapPts]
+    rcases hdens with rfl | ⟨r, _, hseg⟩
+    · rfl
+    · exact segmented_preserves_kind_and_structure E r g.geom d hseg
+
+/-- without a resolution the conversion is exactly `proj` on every vertex of the input -/
+theorem to_crs_pointwise_plain (E : Env K) (proj : C01.CrsRec → C01.CrsRec → Pt K → Pt K)
+    (autoRes : Geom K → K) (s t : C01.CrsRec) (geom : Geom K)
+    (hne : C01.tagEq (some s) (some t) = false) :
+    toCrs E proj autoRes ⟨some s, geom⟩ (some t) .none = .ok ⟨some t, mapPts (proj s t) geom⟩ := by
+  simp [toCrs, hne]
+
+/-- a resolution of zero or below (e.g. the automatic resolution of a zero-area geometry) adds
+nothing instead of hanging -/
+theorem to_crs_nonpos_resolution (E : Env K) (proj : C01.CrsRec → C01.CrsRec → Pt K → Pt K)
+    (autoRes : Geom K → K) (s t : C01.CrsRec) (geom : Geom K) (r : K) (hr : r ≤ 0)
+    (hne : C01.tagEq (some s) (some t) = false) :
+    toCrs E proj autoRes ⟨some s, geom⟩ (some t) (.val r) = .ok ⟨some t, mapPts (proj s t) geom⟩ := by
+  simp [toCrs, hne, not_lt.mpr hr]
+
+/-! ### NaN harmonisation -/
+
+theorem harmonise_nan_both (p : Coord K × Coord K) :
+    (harmonise p).1 = .nan ↔ (harmonise p).2 = .nan := by
+  rcases p with ⟨x, y⟩; cases x <;> cases y <;> simp [harmonise]
+
+theorem harmonise_finite (x y : K) : harmonise (Coord.fin x, Coord.fin y) = (.fin x, .fin y) := rfl
+
+theorem harmonise_idem (p : Coord K × Coord K) : harmonise (harmonise p) = harmonise p := by
+  rcases p with ⟨x, y⟩; cases x <;> cases y <;> simp [harmonise]
+
+/-! ### the executable instance over `Rat` -/
+
+/-- the loop count can be decided on squares alone (no square root needed): this is what the
+driver reports for edges of irrational length -/
+theorem countSq_eq_loop_length (p1 p2 : Pt Rat) (L r : Rat) (hL : 0 ≤ L) (hr : 0 < r) :
+    ∀ (fuel : Nat) (d : Rat), 0 ≤ d →
+      countSq (L * L) r fuel d = (loopPts p1 p2 L r fuel d).length := by
+  intro fuel
+  induction fuel with
+  | zero => intro d _; simp [loopPts, countSq]
+  | succ n ih =>
+    intro d hd
+    unfold countSq loopPts
+    have hiff : d * d < L * L ↔ d < L := mul_self_lt_mul_self_iff hd hL |>.symm
+    by_cases h : d < L
+    · have h' : d * d < L * L := hiff.mpr h
+      simp only [h, h', if_true, List.length_cons]
+      rw [ih (d + r) (by linarith)]
+    · have h' : ¬ d * d < L * L := fun hh => h (hiff.mp hh)
+      simp [h, h']
+
+/-- `fuelRat` is enough fuel: over `Rat` the `EdgeOk.fuel_ok` hypothesis is discharged -/
+theorem fuelRat_sufficient (r L : Rat) (p q : Pt Rat) (hr : 0 < r) (_hL : 0 ≤ L)
+    (hLL : L * L = dist2 p q) : L < ((fuelRat r p q : Rat) + 1) * r := by
+  unfold fuelRat
+  rw [if_neg (not_le.mpr hr)]
+  set c : Int := Rat.ceil (dist2 p q / (r * r)) with hc
+  have hrr : 0 < r * r := mul_pos hr hr
+  have h1 : dist2 p q / (r * r) ≤ (c : Rat) := Rat.le_ceil
+  have h2 : (c : Rat) ≤ ((c.toNat : Nat) : Rat) := by
+    have : c ≤ (c.toNat : Int) := Int.self_le_toNat c
+    exact_mod_cast this
+  have h3 : L * L ≤ ((c.toNat : Nat) : Rat) * (r * r) := by
+    rw [hLL]
+    have := le_trans h1 h2
+    rwa [div_le_iff₀ hrr] at this
+  push_cast
+  set n : Rat := ((c.toNat : Nat) : Rat) with hn
+  have hn0 : 0 ≤ n := by rw [hn]; exact_mod_cast Nat.zero_le _
+  by_contra hcon
+  have hge : (n + 1 + 1) * r ≤ L := not_lt.mp hcon
+  have hpos : 0 ≤ (n + 1 + 1) * r := by positivity
+  have := mul_self_le_mul_self hpos hge
+  nlinarith [mul_nonneg hn0 hrr.le]
+
+/-- non-vacuity: a 3-4-5 edge with resolution 1 satisfies the contract over `Rat` -/
+example : EdgeOk (⟨fun _ _ => 5, fuelRat⟩ : Env Rat) 1 ⟨0, 0⟩ ⟨3, 4⟩ := by
+  refine ⟨by norm_num [dist2], by norm_num, ?_⟩
+  exact fuelRat_sufficient 1 5 ⟨0, 0⟩ ⟨3, 4⟩ (by norm_num) (by norm_num) (by norm_num [dist2])
 
 end OdcGeo.C07
